@@ -7,6 +7,7 @@ import (
 	"strings"
 	"time"
 
+	apisv1a "sigs.k8s.io/network-policy-api/apis/v1alpha1"
 	"sigs.k8s.io/yaml"
 
 	"verifsim/job"
@@ -119,7 +120,8 @@ func (c *c08Case) run(v *c08Variant, steps []job.Step, keep bool) Run {
 // permuteNetpolRules permutes spec.ingress / spec.egress and the from / to lists of a
 // NetworkPolicy document (the parts the property lists as semantically unordered).
 func permuteNetpolRules(r *rng, d Doc) (Doc, bool) {
-	if d.Kind != "NetworkPolicy" {
+	admin := d.Kind == "AdminNetworkPolicy" || d.Kind == "BaselineAdminNetworkPolicy"
+	if d.Kind != "NetworkPolicy" && !admin {
 		return d, false
 	}
 	var m map[string]interface{}
@@ -161,7 +163,10 @@ func permuteNetpolRules(r *rng, d Doc) (Doc, bool) {
 				}
 			}
 		}
-		spec[dp[0]] = shuffle(rules)
+		if !admin {
+			// the rules of an admin policy are ordered (the first match decides); the peers inside one rule are not
+			spec[dp[0]] = shuffle(rules)
+		}
 	}
 	if !changed {
 		return d, false
@@ -506,6 +511,29 @@ func runC08(tier string, seed uint64) int {
 			ns := pn[:strings.Index(pn, "/")]
 			w.Docs = append(w.Docs, Doc{Kind: "NetworkPolicy", NS: ns, Name: "np-halfvalid", Text: "apiVersion: networking.k8s.io/v1\nkind: NetworkPolicy\nmetadata:\n  name: np-halfvalid\n  namespace: " +
 				ns + "\nspec:\n  podSelector: {}\n  policyTypes:\n  - Ingress\n  ingress:\n  - {}\n  - from:\n    - {}\n"})
+		}
+		if (i%15 == 5 || i%15 == 9) && len(w.Workloads)+len(w.Pods) > 0 {
+			// an admin policy without an answer: one rule whose peers are "every namespace" and a peer that says nothing
+			// (neither namespaces nor pods). Every command and every question must fail, wherever that peer stands.
+			used := map[string]bool{}
+			for _, d := range w.Docs {
+				if d.Kind == "AdminNetworkPolicy" {
+					var a apisv1a.AdminNetworkPolicy
+					if yaml.Unmarshal([]byte(d.Text), &a) == nil {
+						used[fmt.Sprint(a.Spec.Priority)] = true
+					}
+				}
+			}
+			prio := 500
+			for used[fmt.Sprint(prio)] {
+				prio++
+			}
+			dirn, pk := "ingress", "from"
+			if r.chance(1, 2) {
+				dirn, pk = "egress", "to"
+			}
+			w.Docs = append(w.Docs, Doc{Kind: "AdminNetworkPolicy", Name: "anp-halfpeer", Text: fmt.Sprintf("apiVersion: policy.networking.k8s.io/v1alpha1\nkind: AdminNetworkPolicy\nmetadata:\n  name: anp-halfpeer\nspec:\n  priority: %d\n  subject:\n    namespaces: {}\n  %s:\n  - name: r0\n    action: Allow\n    %s:\n    - namespaces: {}\n    - {}\n", prio, dirn, pk)})
+			w.HasAdmin = true
 		}
 		c := &c08Case{name: fmt.Sprintf("gen:%d", i), relayout: true, docs: w.Docs, docs2: editSet(r, w.Docs, &f), hasAdmin: w.HasAdmin}
 		if f.PodsOnly && len(w.Pods) >= 2 {
